@@ -795,3 +795,168 @@ func sentBufferFollow(p *core.Program, fn *ssa.Function, b0 *ssa.BasicBlock, idx
 	}
 	return bad
 }
+
+// noUseAfterFree: record bytes handed back to the allocator (Memory_Free(v)) are not read again, and neither
+// is anything decoded from them: the decoders return records whose scripts are sub-slices of the record bytes,
+// so a record decoded from *v - and every record an element of it was stored into - dangles once v is freed.
+// Function-local taint from *v (loads, results of calls that take tainted values, containers tainted values
+// are stored into); any use of a tainted value that can follow the free without v having been defined anew
+// (next loop iteration) is reported.
+func noUseAfterFree(r *core.Run, p *core.Program, rule, pkgSuffix string, floor int) {
+	n := 0
+	for _, fn := range p.ModuleFuncs() {
+		if fn.Pkg == nil || !strings.HasSuffix(fn.Pkg.Pkg.Path(), pkgSuffix) || fn.Blocks == nil {
+			continue
+		}
+		var frees []*ssa.Call
+		an.Instrs(fn, func(i ssa.Instruction) {
+			c, ok := i.(*ssa.Call)
+			if !ok || len(c.Call.Args) != 1 {
+				return
+			}
+			if ld, ok := c.Call.Value.(*ssa.UnOp); ok {
+				if g, ok := ld.X.(*ssa.Global); ok && g.Name() == "Memory_Free" {
+					frees = append(frees, c)
+				}
+			}
+		})
+		for k, fr := range frees {
+			n++
+			v := fr.Call.Args[0]
+			// taint
+			T := map[ssa.Value]bool{v: true}
+			var root func(a ssa.Value, d int) []ssa.Value
+			root = func(a ssa.Value, d int) []ssa.Value { // the values on an address chain down to its base
+				if d > 8 {
+					return nil
+				}
+				switch x := a.(type) {
+				case *ssa.FieldAddr:
+					return append([]ssa.Value{x}, root(x.X, d+1)...)
+				case *ssa.IndexAddr:
+					return append([]ssa.Value{x}, root(x.X, d+1)...)
+				case *ssa.UnOp:
+					if x.Op == token.MUL {
+						return append([]ssa.Value{x}, root(x.X, d+1)...)
+					}
+				}
+				return []ssa.Value{a}
+			}
+			for changed := true; changed; {
+				changed = false
+				mark := func(x ssa.Value) {
+					if x != nil && !T[x] {
+						if _, isC := x.(*ssa.Const); isC {
+							return
+						}
+						if _, isG := x.(*ssa.Global); isG {
+							return
+						}
+						T[x] = true
+						changed = true
+					}
+				}
+				an.Instrs(fn, func(i ssa.Instruction) {
+					switch x := i.(type) {
+					case *ssa.UnOp:
+						if x.Op == token.MUL && T[x.X] {
+							mark(x)
+						}
+					case *ssa.FieldAddr:
+						if T[x.X] {
+							mark(x)
+						}
+					case *ssa.IndexAddr:
+						if T[x.X] {
+							mark(x)
+						}
+					case *ssa.Slice:
+						if T[x.X] {
+							mark(x)
+						}
+					case *ssa.Phi:
+						for _, e := range x.Edges {
+							if T[e] {
+								mark(x)
+							}
+						}
+					case *ssa.Extract:
+						if T[x.Tuple] {
+							mark(x)
+						}
+					case *ssa.Call:
+						if x == fr {
+							return
+						}
+						for _, a := range x.Call.Args {
+							if T[a] && x.Type() != nil {
+								mark(x)
+							}
+						}
+					case *ssa.Store:
+						if T[x.Val] {
+							for _, c := range root(x.Addr, 0) {
+								mark(c)
+							}
+						}
+					}
+				})
+			}
+			delete(T, nil)
+			// uses that can follow the free
+			def, _ := v.(ssa.Instruction)
+			isUse := func(i ssa.Instruction) bool {
+				if i == ssa.Instruction(fr) {
+					return false
+				}
+				switch x := i.(type) {
+				case ssa.CallInstruction:
+					for _, a := range x.Common().Args {
+						if T[a] {
+							return true
+						}
+					}
+				case *ssa.UnOp:
+					return x.Op == token.MUL && T[x.X]
+				}
+				return false
+			}
+			bad := ""
+			scan := func(b *ssa.BasicBlock, from int) bool { // true: stop (v defined anew)
+				for _, i := range b.Instrs[from:] {
+					if def != nil && i == def {
+						return true
+					}
+					if isUse(i) && bad == "" {
+						bad = p.Pos(an.InstrPos(i))
+					}
+				}
+				return false
+			}
+			start := 0
+			for idx, i := range fr.Block().Instrs {
+				if i == ssa.Instruction(fr) {
+					start = idx + 1
+				}
+			}
+			if !scan(fr.Block(), start) {
+				seen := map[*ssa.BasicBlock]bool{}
+				work := append([]*ssa.BasicBlock{}, fr.Block().Succs...)
+				for len(work) > 0 {
+					b := work[len(work)-1]
+					work = work[:len(work)-1]
+					if seen[b] {
+						continue
+					}
+					seen[b] = true
+					if scan(b, 0) {
+						continue
+					}
+					work = append(work, b.Succs...)
+				}
+			}
+			r.Check(bad == "", rule, fmt.Sprintf("no-use-after-free/%s#%d", core.FuncName(fn), k+1), p.Pos(fr.Pos()), "nothing decoded from the freed record is used afterwards", "the record bytes are handed back to the allocator and then something decoded from them is used at "+bad+" (decoded scripts are sub-slices of the record bytes): the data read there may already belong to another record")
+		}
+	}
+	r.Check(n >= floor, rule, "no-use-after-free/sites", "-", fmt.Sprintf("%d places free record bytes", n), fmt.Sprintf("%d places free record bytes (expected at least %d)", n, floor))
+}
